@@ -136,16 +136,22 @@ def vote(node, h, r, s, f, ex, sc=False, evp=None):
                                 "evp": evp or {"name": ""}}}
 
 
-def steps_to_history(steps, n=2, tag="", hold="never"):
-    """a behaviour of Ballotbox.tla as a script: Vote, SetLast and Tick steps (counts and clean cycles are the box's own)"""
+def steps_to_history(steps, n=2, tag="", hold="never", tick_every=0):
+    """a behaviour of Ballotbox.tla as a script: Vote, SetLast and Tick steps (counts and clean cycles are the box's own);
+    tick_every=k: the ticker also runs after every k-th step and at the end (a behaviour seldom takes the one Tick step
+    among its many enabled Vote steps; on the real box a run of the ticker is always possible)"""
     ops = []
-    for s in steps:
+    for i, s in enumerate(steps):
+        if tick_every and i > 0 and i % tick_every == 0 and s["a"] != "Tick":
+            ops.append({"op": "Tick"})
         if s["a"] == "Vote":
             ops.append(vote(s["node"], s["h"], s["r"], s["s"], s["f"], s["ex"], s["sc"]))
         elif s["a"] == "SetLast":
             ops.append({"op": "SetLast", "h": s["h"], "r": s["r"], "s": s["s"], "maj": s["maj"], "sc": s["sc"]})
         elif s["a"] == "Tick":
             ops.append({"op": "Tick"})
+    if tick_every and ops and ops[-1]["op"] != "Tick":
+        ops.append({"op": "Tick"})
     return {"n": n, "local": "n0", "t10": 670, "hold": hold, "ops": ops, "tag": tag}
 
 
@@ -193,7 +199,7 @@ def hold_grid(quick):
     that do not start from a ballot run: the ticker, MissingNodes, Count"""
     hs = []
     sizes = (3, 4, 5) if quick else (3, 4, 5, 6, 7)
-    ths = (670,) if quick else (670, 600, 750, 1000)
+    ths = (670,) if quick else (670, 600, 1000)
     P = (1, 1, 1)
     missing = {"op": "Missing", "h": P[0], "r": P[1], "s": P[2]}
     tails = ([{"op": "Tick"}, missing, {"op": "Count"}, {"op": "Tick"}],     # the ticker meets the record first
@@ -259,16 +265,16 @@ def run(ctx):
         lambda: ctx.tlc("Ballotbox", "Ballotbox_mc_c04_quick.cfg" if quick else "Ballotbox_mc_c04_thorough.cfg", timeout=1800),
         lambda: ctx.tlc("Ballotbox", "Ballotbox_impl_count.cfg", allow_violation=True, count=False, timeout=900, workers=4),
         lambda: ctx.tlc("Ballotbox", "Ballotbox_impl_count2.cfg", allow_violation=True, count=False, timeout=900, workers=4),
-        lambda: ctx.tlc_simulate("Ballotbox", "Ballotbox_sim.cfg", num=30 if quick else 500, depth=40),
+        lambda: ctx.tlc_simulate("Ballotbox", "Ballotbox_sim.cfg", num=30 if quick else 500, depth=40, timeout=600 if quick else 2400),
         # held records and the ticker: the transcription of countHoldeds/countHolded/count emits only for stage points
         # the box is voting on (EmitNew); the caller's own filter alone does not - its counterexamples are schedules
         lambda: ctx.tlc("Ballotbox", "Ballotbox_mc_c04_hold.cfg" if quick else "Ballotbox_mc_c04_hold_thorough.cfg", timeout=1800),
         # (the height is closed through SetLastPoint; thorough: also through late ACCEPT ballots, a deeper search)
         lambda: ctx.tlc("Ballotbox", "Ballotbox_impl_tick.cfg", allow_violation=True, count=False, timeout=900, workers=4),
-        lambda: ctx.tlc_simulate("Ballotbox", "Ballotbox_sim_hold.cfg", num=40 if quick else 600, depth=30),
+        lambda: ctx.tlc_simulate("Ballotbox", "Ballotbox_sim_hold.cfg", num=40 if quick else 400, depth=30, timeout=600 if quick else 2400),
     ]
     if not quick:
-        jobs.append(lambda: ctx.tlc_simulate("Ballotbox", "Ballotbox_sim7.cfg", num=300, depth=30))
+        jobs.append(lambda: ctx.tlc_simulate("Ballotbox", "Ballotbox_sim7.cfg", num=300, depth=30, timeout=2400))
         jobs.append(lambda: ctx.tlc("Ballotbox", "Ballotbox_impl_tick2.cfg", allow_violation=True, count=False, timeout=1800, workers=4))
     out = shared.parallel(jobs)
     r, ri1, ri2, sim, rh, rt1, simh = out[:7]
@@ -294,7 +300,7 @@ def run(ctx):
         if h["ops"]:
             scripts.append(h)
     for i, b in enumerate(simh[1]):
-        h = steps_to_history(b, n=3, tag="simh%d" % i, hold=("never", "zero")[i % 2])
+        h = steps_to_history(b, n=3, tag="simh%d" % i, hold=("never", "zero")[i % 2], tick_every=3)
         if h["ops"]:
             scripts.append(h)
     if not quick:
@@ -316,7 +322,12 @@ def run(ctx):
             if m and int(m.group(1)) > 0:
                 ctx.extra["unsettled_calls"] = ctx.extra.get("unsettled_calls", 0) + int(m.group(1))
             cat.write(open(t).read())
-    events, res = shared.validate(ctx, path, "all")
+    events = core.read_ndjson(path)
+    if not events:
+        raise core.MachineryError("harness recorded no events")
+    ok, res, hw = ctx.tlc_validate_trace("BallotboxTrace", "BallotboxTrace.cfg", path, timeout=1500 if quick else 3600)
+    if not ok:
+        raise core.MachineryError("trace validation stopped at event %s:\n%s" % (hw, res.out[-3000:]))
     # evidence: one case per history; non-trivial = the box emitted at least one voteproof
     hists = []
     ticks = {"runs": 0, "emitting": 0, "voteproofs": 0, "concurrent_histories_with_ticker": 0}
